@@ -496,7 +496,7 @@ func classifyH(c CaseH) core.Class {
 func TestC12h(t *testing.T) {
 	core.Run(t, core.Spec[CaseH]{
 		Property: "C12", Sub: "h",
-		Rule: "histories on one running listener of a real Teamserver whose profile has Demon.TrustXForwardedFor true or false (half each). The listener is started either by the operator's Listener.Add package through the real DispatchEvent (2/3) or by ts.ListenerStart with the configuration teamserver.go builds for a profile listener, response headers included (1/3). Then 0-3 requests and 1-3 rounds of {an operator Listener.Edit package (the dialog's whole form, Info keys and ', '-joined lists exactly as the client sends them) through the real DispatchEvent -> ts.ListenerEdit, 1-4 requests}. Edits change one or two of: URIs (empty the list, fill an empty one, change one element, add, remove one, replace all), user agent (set/unset/change), request headers (empty, fill, change a value, add, remove one). Requests are generated as in (a) around the configuration in force or (40% after an edit) around the previous one, carry X-Forwarded-For always when the profile trusts the redirector and in a third of the cases otherwise, and every one is judged by (a)'s reference judge against the configuration in force at that moment, the redirector flag being the profile's throughout: admitted <=> new entry in ts.Agents with 200 + registration reply + response headers + ExternalIP (X-Forwarded-For iff the profile trusts the redirector, else the peer); otherwise 404, no new agent, no new retained event. Non-trivial: a request served, then an edit, then a request that satisfies the new configuration or was aimed at the old one; distinct = (start mode, profile flag, kind of the last edit, aim and verdict of the first such request)",
+		Rule: "histories on one running listener of a real Teamserver whose profile has Demon.TrustXForwardedFor true or false (half each). The listener is started either by the operator's Listener.Add package through the real DispatchEvent (2/3) or by ts.ListenerStart with the configuration teamserver.go builds for a profile listener, response headers included (1/3). Then 0-3 requests and 1-3 rounds of {an operator Listener.Edit package (the dialog's whole form, Info keys and ', '-joined lists exactly as the client sends them) through the real DispatchEvent -> ts.ListenerEdit, 1-4 requests}. Edits change one or two of: URIs (empty the list, fill an empty one, change one element, add, remove one, replace all), user agent (set/unset/change), request headers (empty, fill, change a value, add, remove one). Requests are generated as in (a) - including its Unicode classes (fold partner / confusable of a configured header value, user agent or URI; configured values with s, k, sigma, micro, composed letters) - around the configuration in force or (40% after an edit) around the previous one, carry X-Forwarded-For always when the profile trusts the redirector and in a third of the cases otherwise, and every one is judged by (a)'s reference judge against the configuration in force at that moment, the redirector flag being the profile's throughout: admitted <=> new entry in ts.Agents with 200 + registration reply + response headers + ExternalIP (X-Forwarded-For iff the profile trusts the redirector, else the peer); otherwise 404, no new agent, no new retained event. Non-trivial: a request served, then an edit, then a request that satisfies the new configuration or was aimed at the old one; distinct = (start mode, profile flag, kind of the last edit, aim and verdict of the first such request)",
 		Gen:  genH, Check: checkH, Classify: classifyH,
 		Assumptions: []string{
 			"operator packages are dispatched without a connected operator socket (replies to 'the user' and broadcasts are no-ops), as CreatePackage + EventAppend + DispatchEvent, which is what handleRequest does after authentication",
